@@ -1,7 +1,8 @@
 (* C17 — cookies survive write/parse and a Cookie header yields exactly its pairs.
    Dates (FullDate behind Howard Hinnant's date.h) are a parameter with its round-trip as a
-   hypothesis.  Extension attributes are covered by the correspondence check, not by a theorem. *)
-From Coq Require Import Ascii String List NArith Arith.
+   hypothesis in C17_attributes_roundtrip / C17_roundtrip; C17_roundtrip_with_dates instantiates them with the
+   Date model (every whole second of 1678..2261).  Extension attributes are covered by the correspondence check, not by a theorem. *)
+From Coq Require Import Ascii String List NArith ZArith Arith.
 Require Import Bytes NumParse ParserModel CookieModel NetLemmas CookieLemmas.
 Import ListNotations.
 
@@ -37,3 +38,30 @@ Theorem C17_jar_exact : forall j k v x,
   In (k, v) (jar_add j k v) /\ (In x (jar_add j k v) -> x = (k, v) \/ In x j).
 Proof. intros. split; [apply jar_add_in|apply jar_add_sub]. Qed.
 Print Assumptions C17_jar_exact.
+
+(* The same with NOTHING left as a parameter on the date side: the dates are the whole seconds of the years 1678..2261
+   (dsec: the range FullDate::fromString accepts), written as FullDate::write writes them (DateModel.date_write) and read by
+   the strict reader of that text; the two hypotheses above are theorems there (DateInst.dsec_roundtrip, dsec_nosemi, resting
+   on the whole-range sweeps of C16_date_roundtrip). *)
+Require Import DateModel DateInst.
+Theorem C17_roundtrip_with_dates :
+  forall c, cookie_wf dsec c -> from_raw dsec dsec_parse (write_cookie dsec dsec_write c) = Some c.
+Proof. exact cookie_roundtrip_dates. Qed.
+Print Assumptions C17_roundtrip_with_dates.
+
+Theorem C17_dates_roundtrip : forall d : dsec, dsec_parse (dsec_write d) = Some d.
+Proof. exact dsec_roundtrip. Qed.
+Print Assumptions C17_dates_roundtrip.
+
+(* non-vacuity: a cookie with every attribute, Expires included, written and read back by the executable functions *)
+Example C17_ex_expires :
+  match dsec_of 951782400%Z with
+  | Some d =>
+    let c := mkCookie dsec (list_of_string "sid") (list_of_string "abc") (Some (list_of_string "/a")) (Some (list_of_string "example.com"))
+               (Some 3600%N) (Some d) true true [] in
+    write_cookie dsec dsec_write c
+      = list_of_string "sid=abc; Path=/a; Domain=example.com; Max-Age=3600; Expires=Tue, 29 Feb 2000 00:00:00.000000000 UTC; Secure; HttpOnly"
+    /\ option_map (fun c' => option_map ds_val (c_expires dsec c')) (from_raw dsec dsec_parse (write_cookie dsec dsec_write c)) = Some (Some 951782400%Z)
+  | None => False
+  end.
+Proof. vm_compute. split; reflexivity. Qed.
